@@ -144,6 +144,21 @@ type DB struct {
 	Tables     []string
 	Versions   map[string]string
 	OpenRows   int
+	open       map[*Stmt]bool
+}
+
+// OpenStatements lists the data statements whose result set was opened and never closed (each one keeps a
+// connection of the pool checked out).
+func (db *DB) OpenStatements() []*Stmt {
+	db.mu.Lock()
+	defer db.mu.Unlock()
+	var res []*Stmt
+	for _, s := range db.Stmts {
+		if db.open[s] {
+			res = append(res, s)
+		}
+	}
+	return res
 }
 
 func NewDB(script []Result) *DB {
@@ -423,6 +438,10 @@ func (c *conn) QueryContext(ctx context.Context, q string, args []driver.NamedVa
 	}
 	db.mu.Lock()
 	db.OpenRows++
+	if db.open == nil {
+		db.open = map[*Stmt]bool{}
+	}
+	db.open[st] = true
 	db.mu.Unlock()
 	data := res.Rows()
 	if res.Explicit != nil {
@@ -476,6 +495,7 @@ func (r *rows) Close() error {
 		if r.lit == nil {
 			r.db.mu.Lock()
 			r.db.OpenRows--
+			delete(r.db.open, r.st)
 			if r.pos < len(r.data) {
 				r.st.Aborted = true
 			}
